@@ -720,6 +720,12 @@ func hexStrings(c *seq.Ctx) {
 		for _, f := range fns {
 			got, err := f.call(s)
 			class, bad, sig := "err", "", ""
+			// a decoder is a function of its text: the same answer after a refused and after another valid text
+			_, _ = f.call("g~" + s)
+			_, _ = f.call("7f")
+			if got2, err2 := f.call(s); (err == nil) != (err2 == nil) || (err == nil && got.Cmp(got2) != 0) {
+				c.Case("hexstr/"+f.name+"/repeat", fmt.Sprintf("%s(%q) = %v/%v at first, %v/%v after two other conversions", f.name, s, got, err, got2, err2), f.name+" answer depends on earlier conversions", func() interface{} { return map[string]string{"fn": f.name, "input": s} })
+			}
 			if err == nil {
 				class = "ok"
 				want, ok := new(big.Int).SetString(s, f.base)
